@@ -1,6 +1,10 @@
 #!/bin/bash
-# Final validation on the unchanged tree: seed sweep, determinism proof, thorough tier.
+# Final validation on the unchanged tree and against the seeded changes.
 cd "$(dirname "$0")/.."
 echo "== seeds"; /venv/bin/python selftest/seeds.py 1 24; echo "seeds exit=$?"
 echo "== determinism"; /venv/bin/python selftest/determinism.py 300; echo "determinism exit=$?"
+echo "== mutants"; /venv/bin/python selftest/mutants.py > /tmp/final-mutants.log 2>&1; echo "mutants exit=$?"; /venv/bin/python -c "
+import json
+d=json.load(open('seeded/results.json'))
+print(len(d), 'run;', 'not caught:', {k:v.get('exit') for k,v in d.items() if not v.get('caught')})"
 echo "== thorough"; selftest/thorough.sh
